@@ -86,6 +86,7 @@ func (u *ue) kgnb() []byte {
 
 // AMF is one conversation's network side.
 type AMF struct {
+	HeldSetup map[int]bool // UEs whose PDU Session Resource Setup Request is still held back by the transport
 	sc   Scenario
 	plmn [3]byte
 	sst  byte
@@ -210,6 +211,16 @@ func (a *AMF) notePLMN(p [3]byte) {
 }
 
 // Note appends a free-form line (used by the runner for faults).
+// Hold / Release: the transport tells the AMF that the setup request it produced for UE k is still held back
+// (Scenario.UEs[k].SetupDelayMs) resp. has been sent now.
+func (a *AMF) Hold(k int) {
+	if a.HeldSetup == nil {
+		a.HeldSetup = map[int]bool{}
+	}
+	a.HeldSetup[k] = true
+}
+func (a *AMF) Release(k int) { delete(a.HeldSetup, k) }
+
 func (a *AMF) Note(dir, what string) {
 	a.Transcript = append(a.Transcript, Entry{N: len(a.Transcript), Dir: dir, Idx: -1, What: what})
 }
@@ -285,6 +296,10 @@ func (a *AMF) handle(ul []byte) (out []dlMsg, what string, v *Violation) {
 	}
 	return out, what, v
 }
+
+// NGSetupAnswerLost: the transport replaced this AMF's answer to the NG SETUP REQUEST by something else (C19). A gNB
+// that asks again is answered again (TS 38.413 8.7.1: the procedure may be re-initiated and starts from scratch).
+func (a *AMF) NGSetupAnswerLost() { a.ngSetupDone = false }
 
 func (a *AMF) onNGSetup(p *iewalk.PDU) ([]dlMsg, *Violation) {
 	if a.ngSetupDone {
@@ -1218,6 +1233,9 @@ func (a *AMF) onSetupResponse(p *iewalk.PDU) (string, *Violation) {
 	what := fmt.Sprintf("%s ue=%d", msg, u.idx)
 	if u.sess != ssSetupSent {
 		return what, a.viol("ngap-state:PDUSessionResourceSetupResponse", "%s: no PDU Session Resource Setup Request is outstanding (session state %d)", what, u.sess)
+	}
+	if a.HeldSetup[u.idx] {
+		return what, a.viol("ngap-state:PDUSessionResourceSetupResponse", "%s: the PDU Session Resource Setup Request of this UE has not left the AMF yet (its SMF is slow; requests of other UEs were answered meanwhile): this response answers another UE's request", what)
 	}
 	var items, failed []iewalk.SessionItem
 	var err error
